@@ -118,13 +118,17 @@ CHECKS = {
         "proc_timeout": "60m",
         "quick": {"procs": 32, "checks_per_proc": 300},
         "thorough": {"procs": 64, "checks_per_proc": 1800},
-        "rule": "one case = 2-3 real replicas (devices of one account on the account group) performing up to 15 seeded metadata "
-                "operations (7 contact operations on 2 contacts, contact-request switch/seed, group join/leave, credentials) while the "
+        "rule": "one case = (2 of 3 cases) 2-3 real replicas (devices of one account on the account group) performing up to 15 seeded metadata "
+                "operations (7 contact operations on 2 contacts, contact-request switch/seed, group join/leave, credentials), or (1 of 3) "
+                "2-4 devices of different accounts (optionally two of one account) on a multi-member or contact group performing up to 15 "
+                "group operations (member-device announcement, ownership claim, secret for a member, alias key/proof, app metadata, "
+                "replication notice) with the members/devices/admins state compared, while the "
                 "simulator chooses every delivery among all in-flight head announcements / head exchanges / block fetches (reordering, "
                 "batching, drops, duplicates), partitions and heals, clean restarts and extra re-indexing; then anti-entropy to a "
                 "fixpoint. non-trivial = at least one network delivery happened under simulator control; distinct = distinct hash "
                 "of the event trace (operations, deliveries, faults in abstract names).",
-        "required_probes": ["causally_ordered_history", "concurrent_history", "reindex", "reopen_same_entries"],
+        "required_probes": ["causally_ordered_history", "concurrent_history", "reindex", "reopen_same_entries",
+                            "multimember_group_scenario", "contact_group_scenario", "group_fold_checked", "group_admin_claimed", "group_several_devices"],
         "assumptions": COMMON_ASSUMPTIONS + ["each reaction of go-orbit-db/go-ipfs-log goroutines between two simulator events runs to quiescence (atomic step)"],
     },
     "C07": {
